@@ -29,6 +29,7 @@ def run(ctx):
     wake(ctx, prog, A)
     thresholds(ctx, prog, A)
     stale_head(ctx, prog, A)
+    predicates(ctx, prog, A)
 
 
 # ------------------------------------------------------------------ (a)
@@ -313,19 +314,16 @@ def _thresholds(prog, A):
                         t = b.term
                         if t.op != 'br' or len(t.extra['targets']) != 2:
                             continue
-                        c = strip_casts(P.expr(t.ops[0]))
-                        if c[0] != 'icmp':
-                            continue
-                        x, y = strip_casts(c[2]), strip_casts(c[3])
-                        if x[0] == 'load' and x[1][1][0] == 'G' and not x[1][2] and y[0] == 'const':
-                            k = None
-                            if c[1] == 'ugt':
-                                k = y[1]
-                            elif c[1] == 'uge':
-                                k = y[1] - 1
-                            if k is not None:
-                                key = (f.module.unit, f.name, x[1][1][1])
-                                out[key] = max(out.get(key, -1), k)
+                        # `counter > K` in any spelling (>=, <, <=, negated, early-return form): the fact name
+                        # produced by the counter matcher carries the K
+                        import expandrules as X
+                        from prov import peel_cond as _peel
+                        core, _ = _peel(P.expr(t.ops[0]))
+                        r = X.counter_fact({'G:work_units', 'G:out_slots', 'G:in_slots'})[1](core)
+                        if r is not None:
+                            gname, k = r[0].split('>')
+                            key = (f.module.unit, f.name, gname[2:])
+                            out[key] = max(out.get(key, -1), int(k))
     return out
 
 
@@ -338,19 +336,6 @@ def thresholds(ctx, prog, A):
         f = prog.func(key[0], key[1])
         ctx.ob('C11.reserve', '%s() keeps at least one %s in reserve (threshold %d)' % (key[1], key[2], thr[key]), f.loc(),
                thr[key] >= 1, 'the last unit is reserved for the block the writer needs next')
-        # the reserved units are reachable only through the `> 0 && head test` arm: both tests exist
-        P = A.cg.prov(f)
-        zero_tests = 0
-        for b in f.blocks.values():
-            t = b.term
-            if t.op == 'br' and len(t.extra['targets']) == 2:
-                c = strip_casts(P.expr(t.ops[0]))
-                if c[0] == 'icmp' and c[1] == 'ugt' and strip_casts(c[3]) == ('const', 0):
-                    x = strip_casts(c[2])
-                    if x[0] == 'load' and x[1][1] == ('G', key[2]):
-                        zero_tests += 1
-        ctx.ob('C11.reserve', '%s() can use the reserve only when %s > 0' % (key[1], key[2]), f.loc(), zero_tests >= 1,
-               '%d tests of `%s > 0`' % (zero_tests, key[2]))
     # cross-unit constant: total_out_slots (compression) = 2*num_worker + TRANSM_THRESH
     smc = prog.func('process', 'set_memory_constraints')
     P = A.cg.prov(smc)
@@ -617,3 +602,161 @@ def stale_head(ctx, prog, A):
                 spec = True
     ctx.ob('C11.stale_head', 'speculative origin: do_scan stamps retrieve jobs with scanner positions', f.loc(), spec,
            'rb->base = bs->pos')
+
+
+# ------------------------------------------------------------------ (e') ready predicates, tabulated
+def predicates(ctx, prog, A):
+    """Necessary conditions on the ready predicates, decided on the predicates' complete decision tables (every path,
+    with comparisons of counters named by what they mean, positions by the relation they imply) so that they do not
+    depend on how a predicate is written:
+      N1  a predicate that is true guarantees what its task takes unconditionally (token > 0, queue non-empty);
+      N2  reserved units (counter <= threshold, threshold >= 1) are granted only to the head of the order, and
+      N2' they ARE granted to every block at or behind that head (else the writer's next block can starve: F3);
+      N3  a task that already holds its work unit (unfinished_work) can be resumed without a second one."""
+    import expandrules as X
+    from expandrules import (counter_fact, counter_gt, pos_fact_matchers, pos_relations, flag_fact, nonnull_fact,
+                             nonempty_q, predicate_table, eq_fact)
+    WU, OS = 'G:work_units', 'G:out_slots'
+    cf = counter_fact({WU, OS, 'G:in_slots'})
+
+    def is_emit_top(k):
+        return k.startswith('V(V(G:expand:emit_q.root)') and k.endswith('.base')
+
+    def is_order_head(k):
+        return k.startswith('V(G:expand:order_q.root)[') and k.endswith('.base')
+
+    def is_trans_top(k):
+        return k.startswith('V(V(G:compress:trans_q.root)') and k.endswith('.pos')
+
+    def is_order_c(k):
+        return k == 'G:compress:order'
+
+    def thr(rows, key):
+        ks = set()
+        for _, fa in rows:
+            for n in fa:
+                if isinstance(n, str) and n.startswith(key + '>'):
+                    ks.add(int(n[len(key) + 1:]))
+        return max(ks) if ks else None
+
+    # ---- can_emit
+    f, rows = predicate_table(prog, 'expand', 'can_emit', [cf, nonempty_q('expand', 'emit_q'), nonempty_q('expand', 'order_q')]
+                              + pos_fact_matchers('EO', is_emit_top, is_order_head))
+    ctx.floor('C11 can_emit decision paths', len(rows), 2)
+    T = thr(rows, OS)
+    bad = []
+    for val, fa in rows:
+        rel = pos_relations('EO', fa)
+        if val is None:
+            bad.append('result not determined by the tracked conditions')
+        elif val:
+            if fa.get('nonempty:emit_q') is not True:
+                bad.append('ready with a possibly empty emit_q')
+            if counter_gt(fa, OS, 0) is not True:
+                bad.append('ready although out_slots may be 0 (do_emit takes one unconditionally)')
+            if T is not None and counter_gt(fa, OS, T) is not True:
+                if fa.get('nonempty:order_q') is not True or (rel - {'LT', 'EQ'}):
+                    bad.append('a reserved output slot (out_slots <= %d) is granted to a block that may be ahead of the '
+                               'order head (possible relations %s)' % (T, sorted(rel)))
+        else:
+            # a `false` row must not be compatible with a state in which the block at the head of emit_q is at or
+            # behind the order head while a slot is free
+            if fa.get('nonempty:emit_q') is not False and counter_gt(fa, OS, 0) is not False and \
+                    fa.get('nonempty:order_q') is not False and (rel & {'LT', 'EQ'}):
+                bad.append('refuses a reserved slot to a block at or behind the order head (relations %s): a passed-over '
+                           'candidate at the head of emit_q would block the writer\'s next block for ever' % sorted(rel))
+    ctx.ob('C11.predicate', 'can_emit(): N1, reserve threshold >= 1, reserve only for blocks not ahead of the order head, '
+           'and always for blocks at or behind it', f.loc(), T is not None and T >= 1 and not bad,
+           '; '.join(sorted(set(bad))) or 'threshold %s, %d decision paths' % (T, len(rows)), evals=len(rows))
+    # ---- can_transmit
+    f, rows = predicate_table(prog, 'compress', 'can_transmit', [cf, nonempty_q('compress', 'trans_q')]
+                              + pos_fact_matchers('TO', is_trans_top, is_order_c))
+    ctx.floor('C11 can_transmit decision paths', len(rows), 2)
+    T = thr(rows, OS)
+    bad = []
+    for val, fa in rows:
+        rel = pos_relations('TO', fa)
+        if val is None:
+            bad.append('result not determined by the tracked conditions')
+        elif val:
+            if fa.get('nonempty:trans_q') is not True:
+                bad.append('ready with a possibly empty trans_q')
+            if counter_gt(fa, OS, 0) is not True:
+                bad.append('ready although out_slots may be 0')
+            if T is not None and counter_gt(fa, OS, T) is not True and rel != {'EQ'}:
+                bad.append('a reserved output slot is granted to a block that may not be the next in order (%s)' % sorted(rel))
+        else:
+            if fa.get('nonempty:trans_q') is not False and counter_gt(fa, OS, 0) is not False and 'EQ' in rel:
+                bad.append('refuses the reserved slot to the block that is next in order')
+    ctx.ob('C11.predicate', 'can_transmit(): N1, reserve threshold >= 1, reserve exactly for the block next in order',
+           f.loc(), T is not None and T >= 1 and not bad, '; '.join(sorted(set(bad))) or 'threshold %s, %d paths' % (T, len(rows)),
+           evals=len(rows))
+    # ---- can_scan
+    f, rows = predicate_table(prog, 'expand', 'can_scan', [cf, nonempty_q('expand', 'scan_q'),
+                                                           flag_fact('parse_token', 'G:expand:parse_token'),
+                                                           flag_fact('ultra', 'G:ultra')])
+    T = thr(rows, WU)
+    bad = []
+    for val, fa in rows:
+        if val is not False:
+            if counter_gt(fa, WU, 0) is not True:
+                bad.append('ready although work_units may be 0')
+            if fa.get('nonempty:scan_q') is not True:
+                bad.append('ready with a possibly empty scan_q')
+            if T is not None and counter_gt(fa, WU, T) is not True and fa.get('parse_token') is not False:
+                bad.append('the last work unit is granted to the scanner although the parser may want it')
+    ctx.ob('C11.predicate', 'can_scan(): N1, the last work unit goes to the scanner only while the parser cannot run',
+           f.loc(), T is not None and T >= 1 and bool(rows) and not bad, '; '.join(sorted(set(bad))) or
+           'threshold %s, %d paths' % (T, len(rows)), evals=len(rows))
+    # ---- simple N1 predicates
+    for unit, name, need_q, need_c in (('compress', 'can_collect', 'coll_q', WU), ('expand', 'can_parse', None, WU),
+                                       ('expand', 'can_retrieve', 'retr_q', None)):
+        facts = [cf]
+        if need_q:
+            facts.append(nonempty_q(unit, need_q))
+        f, rows = predicate_table(prog, unit, name, facts)
+        bad = []
+        for val, fa in rows:
+            if val is not False:       # (None: decided by a callee such as can_attach() -- possibly true)
+                if need_q and fa.get('nonempty:' + need_q) is not True:
+                    bad.append('ready with a possibly empty %s' % need_q)
+                if need_c and counter_gt(fa, need_c, 0) is not True:
+                    bad.append('ready although %s may be 0' % need_c.split(':')[-1])
+        ctx.ob('C11.predicate', '%s(): true only when its task can take what it takes unconditionally' % name, f.loc(),
+               bool(rows) and any(v is not False for v, _ in rows) and not bad, '; '.join(sorted(set(bad))) or '%d paths' % len(rows),
+               evals=len(rows))
+    # ---- can_collect_seq: N1 + N3
+    f, rows = predicate_table(prog, 'compress', 'can_collect_seq', [
+        cf, nonempty_q('compress', 'coll_q'), flag_fact('ultra', 'G:ultra'), flag_fact('token', 'G:compress:collect_token'),
+        flag_fact('eof', 'G:eof'), nonnull_fact('unfinished', 'G:compress:unfinished_work')])
+    bad = []
+    for val, fa in rows:
+        unf = fa.get('unfinished')
+        if val:
+            if fa.get('token') is not True:
+                bad.append('ready without the collect token')
+            if unf is not True and counter_gt(fa, WU, 0) is not True:
+                bad.append('ready to start a new block although work_units may be 0')
+            if fa.get('nonempty:coll_q') is not True and not (fa.get('eof') is True and unf is True):
+                bad.append('ready with nothing to collect and nothing to flush')
+        else:
+            if unf is not False and fa.get('ultra') is not False and fa.get('token') is not False and \
+                    (fa.get('nonempty:coll_q') is not False or fa.get('eof') is not False):
+                bad.append('refuses to continue an unfinished block (which already holds its work unit) because '
+                           'work_units is 0: with one worker the block is never finished')
+    ctx.ob('C11.predicate', 'can_collect_seq(): N1, and an unfinished block can always be continued/flushed without a '
+           'second work unit (no hold-and-wait)', f.loc(), bool(rows) and not bad, '; '.join(sorted(set(bad))) or
+           '%d paths' % len(rows), evals=len(rows))
+    # ---- can_terminate (both modes): all tokens returned
+    for unit in ('compress', 'expand'):
+        f, rows = predicate_table(prog, unit, 'can_terminate', [
+            flag_fact('eof', 'G:eof'), eq_fact('wu_all', 'G:work_units', 'G:num_worker'),
+            eq_fact('os_all', 'G:out_slots', 'G:total_out_slots')])
+        bad = []
+        for val, fa in rows:
+            if val and not (fa.get('eof') is True and fa.get('wu_all') is True and fa.get('os_all') is True):
+                bad.append('terminates with eof=%s, all work units back=%s, all output slots back=%s' % (
+                    fa.get('eof'), fa.get('wu_all'), fa.get('os_all')))
+        ctx.ob('C11.predicate', '%s can_terminate(): true only at end of input with every work unit and output slot '
+               'returned' % unit, f.loc(), bool(rows) and any(v for v, _ in rows) and not bad, '; '.join(sorted(set(bad))),
+               evals=len(rows))
